@@ -17,6 +17,7 @@ let show_label = function
   | LTs j -> Printf.sprintf "s%d" (int_of_nat j)
   | LPat k -> Printf.sprintf "a%d" (int_of_nat k)
   | LSdp k -> Printf.sprintf "d%d" (int_of_nat k)
+  | LRtp j -> Printf.sprintf "p%d" (int_of_nat j)
 
 let show_labels prefix (l : label list) =
   let ls = Stdlib.List.map show_label l in
@@ -29,7 +30,8 @@ let parse_cfg (s : string) : cfg =
     cf_flv_enable = get l "fe" <> 0; cf_flv_gop = nat_of_int (get l "fg"); cf_flv_max = nat_of_int (get l "fm");
     cf_ts_gop = nat_of_int (get l "tg"); cf_ts_max = nat_of_int (get l "tm");
     cf_merge = n_of_int (get l "mw"); cf_record_flv = get l "rec" <> 0;
-    cf_chunk = n_of_int 4096; cf_ext_at_limit = get l "extfix" <> 0 }
+    cf_chunk = n_of_int 4096; cf_ext_at_limit = get l "extfix" <> 0;
+    cf_rtsp_wait = get l "rw" <> 0; cf_hook = get l "hook" <> 0; cf_record_ts = get l "trec" <> 0 }
 
 let broken : (int, unit) Hashtbl.t = Hashtbl.create 8
 
@@ -42,11 +44,15 @@ let parse_events (s : string) : (ev list) * (int * char) list =
       | ["I"] -> Some EvInStart
       | ["O"] | ["Oq"] -> Some EvInStop
       | ["K"] -> None
-      | ["S"; _] -> Some EvSdp
+      | ["S"; _] -> Some (EvSdp VOther)
+      | ["S"; v; _] -> Some (EvSdp (match v with "a" -> VAvc | "h" -> VHevc | _ -> VOther))
       | ["D"; id] ->
         let idn = int_of_string id in
         if Stdlib.List.mem_assoc idn !kinds then None
-        else begin kinds := (idn, 'd') :: !kinds; Some (EvDescribe (n_of_int idn)) end
+        else begin kinds := (idn, 'd') :: !kinds; Some (EvJoin (KRtsp, n_of_int idn)) end
+      | ["Y"; id] -> Some (EvPlay (n_of_int (int_of_string id)))
+      | ["R"; b] -> Some (EvRtp (bytes_of_token b))
+      | ["X"] -> Some EvDispose
       | ["B"; id] -> Hashtbl.replace broken (int_of_string id) (); None
       | ["P"; t; ts; p] -> Some (EvPublish { GroupMsg.rm_type = n_of_token t; GroupMsg.rm_ts = n_of_token ts; GroupMsg.rm_payload = bytes_of_token p })
       | [j; id] when String.length j = 2 && j.[0] = 'J' ->
@@ -83,6 +89,25 @@ let run_hist cfgtok evtok =
     if c.cf_record_flv then
       let recs = Stdlib.List.rev st.g_rec in
       parts @ ["rec=" ^ (if recs = [] then "-" else String.concat "/" (Stdlib.List.map (show_labels "F") recs))]
+    else parts in
+  let parts =
+    if Stdlib.List.mem EvDispose evs then
+      (* sessions still attached after the history (push sessions are not shown) *)
+      let live = Stdlib.List.filter_map (fun x -> if x.c_kind = KPush then None else Some (string_of_int (int_of_n x.c_id))) st.g_subs in
+      parts @ ["live=" ^ (if live = [] then "-" else String.concat "," live)]
+    else parts in
+  let parts =
+    if c.cf_record_ts then
+      let recs = Stdlib.List.rev st.g_trec in
+      parts @ ["trec=" ^ (if recs = [] then "-" else String.concat "/" (Stdlib.List.map (show_labels "") recs))]
+    else parts in
+  let parts =
+    if c.cf_hook then
+      let hs = Stdlib.List.rev st.g_hook in
+      let show (ms, st) =
+        (if ms = [] then "-" else String.concat "," (Stdlib.List.map (fun i -> string_of_int (int_of_nat i)) ms))
+        ^ ":" ^ string_of_int (int_of_nat st) in
+      parts @ ["hook=" ^ (if hs = [] then "-" else String.concat "/" (Stdlib.List.map show hs))]
     else parts in
   if parts = [] then "-" else String.concat "|" parts
 
